@@ -30,7 +30,7 @@ CONSTANTS
     Rows,       \* row ids; for "bsi" 0 .. BitDepth+1
     Cols,       \* abstract columns, a subset of 0..9
     Ops,        \* names of the enabled actions
-    Scope,      \* "small" | "full": size of the argument families
+    Scope,      \* "mini" | "small" | "full": size of the argument families
     Depth,      \* length of generated behaviours; 0 = (M) mode (no hist)
     ShapeName,  \* "free" | "bwb" | "bwwb": forced op classes per step (C10 bias)
     InitMode,   \* "empty" | "some" | "any"
@@ -88,6 +88,7 @@ ValidBSI(b) == \A c \in Cols : ~Exists(b, c) => ({r \in Rows : <<r, c>> \in b} \
 \* ---- argument families
 ColSets ==
     IF Scope = "full" THEN SUBSET Cols
+    ELSE IF Scope = "mini" THEN {{}, {CHOOSE c \in Cols : \A d \in Cols : c <= d}, Cols}
     ELSE {S \in SUBSET Cols : S = {} \/ S = Cols \/ Cardinality(S) = 1
                                \/ (Cardinality(S) = 2 /\ \E a, b \in S : a \div 2 # b \div 2)}
 RowSets ==
@@ -98,11 +99,14 @@ RoaringSets == {RS \X CS : RS \in RowSets, CS \in (ColSets \ {{}})}
 \* pairs used in bulk import batches
 BatchPairs ==
     IF Scope = "full" THEN Univ
+    ELSE IF Scope = "mini" THEN {x \in Univ : (x[2] = 0 /\ x[1] = 0) \/ (x[2] = 3 /\ x[1] # 0)}
     ELSE {x \in Univ : (x[2] = 0) \/ (x[2] = 3 /\ x[1] # 0) \/ (x[2] = 1 /\ x[1] = 0)}
 Batches ==
     [1 .. 1 -> BatchPairs] \cup [1 .. 2 -> BatchPairs]
     \cup {<<x, y, x>> : x, y \in {p \in BatchPairs : p[2] = 0}}
-ValPairs == IF Scope = "full" THEN Cols \X Vals ELSE {0, 3} \X {0 - VMax, 0, 1, VMax}
+ValPairs == IF Scope = "full" THEN Cols \X Vals
+            ELSE IF Scope = "mini" THEN {0, 3} \X {0 - VMax, 1}
+            ELSE {0, 3} \X {0 - VMax, 0, 1, VMax}
 ValBatches == [1 .. 1 -> ValPairs] \cup [1 .. 2 -> ValPairs]
 RowStarts == Rows \cup {r + 1 : r \in Rows}
 
@@ -276,13 +280,34 @@ ReadBlockData == \E k \in BlockIds : Step("BlockData", "", k, -1, {}, <<>>, "", 
 \* value(col): r = the value or None
 ReadValue     == \E c \in Cols : Step("Value", "", Val(bits, c), c, {}, <<>>, "", B2S(Exists(bits, c)), {}, bits, pending)
 
+\* (the guards are repeated here so that a disabled action costs nothing)
+En(op) == op \in Ops /\ ShapeOK(op)
 Next ==
     /\ (Gen => Len(hist) < Depth + 1)
-    /\ \/ SetBit \/ ClearBit \/ SetRow \/ ClearRow \/ BulkSet \/ BulkClear \/ BulkMutex
-       \/ RoaringSet \/ RoaringClear
-       \/ SetValue \/ ClearValue \/ ImportValue \/ ImportValueClear
-       \/ Snapshot \/ Enqueue \/ BgSnapshot \/ Reopen
-       \/ ReadRow \/ ReadBit \/ ReadRows \/ ReadForEach \/ ReadBlocks \/ ReadBlockData \/ ReadValue
+    /\ \/ En("SetBit") /\ SetBit
+       \/ En("ClearBit") /\ ClearBit
+       \/ En("SetRow") /\ SetRow
+       \/ En("ClearRow") /\ ClearRow
+       \/ En("BulkSet") /\ BulkSet
+       \/ En("BulkClear") /\ BulkClear
+       \/ En("BulkMutex") /\ BulkMutex
+       \/ En("RoaringSet") /\ RoaringSet
+       \/ En("RoaringClear") /\ RoaringClear
+       \/ En("SetValue") /\ SetValue
+       \/ En("ClearValue") /\ ClearValue
+       \/ En("ImportValue") /\ ImportValue
+       \/ En("ImportValueClear") /\ ImportValueClear
+       \/ En("Snapshot") /\ Snapshot
+       \/ En("Enqueue") /\ Enqueue
+       \/ En("BgSnapshot") /\ BgSnapshot
+       \/ En("Reopen") /\ Reopen
+       \/ En("Row") /\ ReadRow
+       \/ En("Bit") /\ ReadBit
+       \/ En("Rows") /\ ReadRows
+       \/ En("ForEachBit") /\ ReadForEach
+       \/ En("Blocks") /\ ReadBlocks
+       \/ En("BlockData") /\ ReadBlockData
+       \/ En("Value") /\ ReadValue
 
 \* ---- initial contents
 ValidInit(b) ==
